@@ -35,8 +35,8 @@ const keySubslice = "vector:subslice-bounds"
 type mcBounds struct {
 	Bases            []int
 	MaxVers, MaxGrow int
-	CVals, AVals           string
-	Refine                 bool
+	CVals, AVals     string
+	Refine           bool
 }
 
 func (b mcBounds) cfg() []byte {
@@ -108,18 +108,29 @@ func run(c *lib.Ctx) error {
 		sel := os.Getenv("VERIF_C06_PHASES")
 		return sel == "" || strings.Contains(","+sel+",", ","+p+",")
 	}
-	for _, ph := range []struct {
+	// two lanes side by side (about 4 cores each): model + generation | sweep + histories
+	type phase struct {
 		name string
 		f    func(*lib.Ctx, string) error
-	}{{"runs", modelRuns}, {"gen", genReplay}, {"sweep", sweep}, {"hist", histories}} {
-		if !want(ph.name) {
-			continue
+	}
+	lanes := [][]phase{{{"runs", modelRuns}, {"gen", genReplay}}, {{"sweep", sweep}, {"hist", histories}}}
+	errs := make([]error, len(lanes))
+	lib.Parallel(len(lanes), len(lanes), func(i int) {
+		for _, ph := range lanes[i] {
+			if !want(ph.name) {
+				continue
+			}
+			t0 := time.Now()
+			if errs[i] = ph.f(c, dir); errs[i] != nil {
+				return
+			}
+			c.Logf("phase %s done in %.1fs", ph.name, time.Since(t0).Seconds())
 		}
-		t0 := time.Now()
-		if err := ph.f(c, dir); err != nil {
+	})
+	for _, err := range errs {
+		if err != nil {
 			return err
 		}
-		c.Logf("phase %s done in %.1fs", ph.name, time.Since(t0).Seconds())
 	}
 	c.Assume("TLC trusted; contents travel as runs [a,n] (a..a+n-1): the run arithmetic is checked against explicit sequences by MCRuns and, per operation, by RefinesArray in the Base=0 model; element values are Go ints (K+position for prefilled elements, 1/2/7.. for written ones); 'Rejected' is Index ok=false / nil from Assoc, Pop, SubVector (documented for Assoc and Pop; SubVector's nil is implemented but not documented); a panic is always a violation; structural boundaries are derived from lengths by the documented layout, unexported fields are not read")
 	return nil
@@ -153,7 +164,7 @@ func genReplay(c *lib.Ctx, dir string) error {
 	total := 0
 	lib.Parallel(len(cfgs), 2, func(ci int) {
 		b := cfgs[ci]
-		r, err := c.TLC(fmt.Sprintf("MCPVector(bases=%v)", b.Bases), lib.TLCRun{Dir: dir, Module: "MCPVector", Workers: 4, Timeout: 14 * time.Minute, HeapGB: 6,
+		r, err := c.TLC(fmt.Sprintf("MCPVector(bases=%v)", b.Bases), lib.TLCRun{Dir: dir, Module: "MCPVector", Workers: 2, Timeout: 14 * time.Minute, HeapGB: 6,
 			Files: map[string][]byte{"MCPVector.cfg": b.cfg()}})
 		if err == nil && r.ErrKind != "" {
 			err = lib.Infra("the vector model (bases %v) violates its own property %s %s:\n%s", b.Bases, r.ErrKind, r.ErrName, r.ErrTrace)
@@ -195,6 +206,9 @@ func replayLines(c *lib.Ctx, pre []vector.Vector, nBases int, lines []string, ge
 		var l gline
 		if err := json.Unmarshal([]byte(s), &l); err != nil {
 			return 0, lib.Infra("bad transition from TLC: %v: %.200s", err, s)
+		}
+		if os.Getenv("VERIF_C06_CORRUPT") == "gen" && len(seen) == 500 { // self-test: the replay must reject this
+			l.Vers[0] = append([]rn{{5, 1}}, l.Vers[0]...)
 		}
 		byLevel[len(l.P)] = append(byLevel[len(l.P)], l)
 		if len(l.P) > maxLevel {
